@@ -8,8 +8,8 @@
    (None = the subgrader raised).  Nested ListGraders are obtained by instantiating the oracle with the
    model itself (run, below), so every theorem about one level holds at every depth.
 
-   The assignment solver is a parameter (solve); the executable instance is the generic transcription of
-   munkres.py (Model/Munkres.v) at Q (computeQ, below).
+   The assignment solver is a parameter (solve); the executable instance is the integer instance of the
+   transcription of munkres.py (Model/Munkres.v, computeZ) on the costs scaled to integers (solveZ, below).
 
    Conventions:
      - results:  Short e  = a short-form dict {'ok','grade_decimal','msg'};
@@ -43,7 +43,11 @@ Inductive ginput (X : Type) : Type := GOne (x : X) | GMany (xs : list X).
 Arguments GOne {X} x.
 Arguments GMany {X} xs.
 
-Inductive result : Type := Short (e : entry) | Long (es : list entry).
+(* a sub-grader's result: short-form dict (one entry) or long-form dict (its input_list) -- the same shape as a
+   grouped input, which is what makes groupify_list / ungroupify_list mutually inverse *)
+Definition result : Type := ginput entry.
+Definition Short (e : entry) : result := GOne e.
+Definition Long (es : list entry) : result := GMany es.
 
 Record lgcfg := mkLgCfg {
   lg_ordered : bool;            (* config['ordered'] *)
@@ -104,43 +108,52 @@ Definition apply_partial (partial : bool) (es : list entry) : list entry :=
 Definition consolidate (gs : list Q) : Q :=
   Qmax 0%Q (sumQ gs / inject_Z (Z.of_nat (length gs)))%Q.
 Definition result_grade (r : result) : Q :=
-  match r with Short e => e_grade e | Long es => consolidate (map e_grade es) end.
+  match r with GOne e => e_grade e | GMany es => consolidate (map e_grade es) end.
 Definition cost_matrix (R : list (list result)) : list (list Q) :=
   map (map (fun r => (1 - result_grade r)%Q)) R.
 Definition pick (R : list (list result)) (p : nat * nat) : option result :=
   match nth_error R (fst p) with Some row => nth_error row (snd p) | None => None end.
 
-(* ---------- ungroupify_list ---------- *)
-Definition group_pairs (grp : list nat) (r : result) : option (list (nat * entry)) :=
-  match grp, r with
-  | [i], Short e => Some [(i, e)]
-  | [i], Long _ => None                   (* a list lands in one box *)
-  | [], _ => Some []
-  | _, Long es => Some (combine grp es)   (* zip(indices, items) *)
-  | _, Short _ => None                    (* the dict's keys land in the boxes *)
-  end.
-Fixpoint scatter (kvs : list (nat * entry)) (s : list (option entry)) : list (option entry) :=
-  match kvs with [] => s | (i, e) :: r => scatter r (lg_upd s i (Some e)) end.
-Definition ungroupify (gm : list (list nat)) (rs : list result) : option (list entry) :=
-  match all_some (map (fun t => group_pairs (fst t) (snd t)) (combine gm rs)) with
-  | None => None
-  | Some pss => all_some (scatter (concat pss) (repeat None (S (list_max (concat gm)))))
-  end.
+(* ---------- groupify_list / ungroupify_list (polymorphic, as in Python) ---------- *)
+Section Grouping.
+  Variable T : Type.
+  Variable dT : T.                        (* default for out-of-range reads; unreachable after validate_submission *)
+
+  Definition groupify (gm : list (list nat)) (l : list T) : list (ginput T) :=
+    map (fun grp => match grp with
+                    | [i] => GOne (nth i l dT)
+                    | _ => GMany (map (fun i => nth i l dT) grp)
+                    end) gm.
+
+  Definition group_pairs (grp : list nat) (r : ginput T) : option (list (nat * T)) :=
+    match grp, r with
+    | [i], GOne e => Some [(i, e)]
+    | [i], GMany _ => None                  (* a list lands in one box *)
+    | [], _ => Some []
+    | _, GMany es => Some (combine grp es)  (* zip(indices, items) *)
+    | _, GOne _ => None                     (* the dict's keys land in the boxes *)
+    end.
+  Fixpoint scatter (kvs : list (nat * T)) (s : list (option T)) : list (option T) :=
+    match kvs with [] => s | (i, e) :: r => scatter r (lg_upd s i (Some e)) end.
+  Definition ungroupify (gm : list (list nat)) (rs : list (ginput T)) : option (list T) :=
+    match all_some (map (fun t => group_pairs (fst t) (snd t)) (combine gm rs)) with
+    | None => None
+    | Some pss => all_some (scatter (concat pss) (repeat None (S (list_max (concat gm)))))
+    end.
+End Grouping.
+Arguments groupify {T} dT gm l.
+Arguments group_pairs {T} grp r.
+Arguments scatter {T} kvs s.
+Arguments ungroupify {T} gm rs.
+
 Definition flatten_plain (rs : list result) : option (list entry) :=
-  all_some (map (fun r => match r with Short e => Some e | Long _ => None end) rs).
+  all_some (map (fun r => match r with GOne e => Some e | GMany _ => None end) rs).
 
 Section Level.
   Variables X A : Type.
   Variable dX : X.                        (* default for out-of-range reads; unreachable after validate_submission *)
   Variable check : nat -> A -> ginput X -> option (list (nat * ginput X)) -> option result.
   Variable solve : list (list Q) -> option (list (nat * nat)).
-
-  (* ---------- groupify_list ---------- *)
-  Definition groupify (gm : list (list nat)) (l : list X) : list (ginput X) :=
-    map (fun grp => match grp with
-                    | [i] => GOne (nth i l dX)
-                    | _ => GMany (map (fun i => nth i l dX) grp)
-                    end) gm.
 
   (* ---------- get_ordered_input_list ---------- *)
   Definition gidx (c : lgcfg) (p : nat) : nat := if lg_sublist c then p else 0.
@@ -179,7 +192,7 @@ Section Level.
     | _ :: _ =>
         if Nat.eqb (length (lg_grouping c)) (length xs) then
           let gm := group_map (lg_grouping c) in
-          match sub_results c answers (groupify gm xs) with
+          match sub_results c answers (groupify dX gm xs) with
           | Some rs => ungroupify gm rs
           | None => None
           end
@@ -202,10 +215,15 @@ Section Level.
     end.
 End Level.
 
-(* ---------- the assignment solver at Q (munkres.py on exact costs) ---------- *)
-Definition qmaxsize : Q := 9223372036854775807 # 1.
-Definition computeQ : list (list Q) -> option (list (nat * nat)) :=
-  compute Q 0%Q (fun a b => Qred (a + b)) (fun a b => Qred (a - b)) Qltb Qeq_bool qmaxsize.
+(* ---------- the assignment solver: munkres.py's integer instance (Model/Munkres.v, computeZ) on the costs
+   scaled by a common denominator D of the matrix:  D * (1 - grade)  as integers.  In exact arithmetic the
+   real code's matrix is this one divided by D, and every decision of the solver (comparisons with zero,
+   minima, additions/subtractions of minima) is invariant under a positive scaling. ---------- *)
+Definition common_den (M : list (list Q)) : Z :=
+  fold_right (fun q acc => Z.lcm (Zpos (Qden (Qred q))) acc) 1%Z (concat M).
+Definition scale_cost (D : Z) (q : Q) : Z := (Qnum (Qred q) * (D / Zpos (Qden (Qred q))))%Z.
+Definition scaled_matrix (M : list (list Q)) : list (list Z) := map (map (scale_cost (common_den M))) M.
+Definition solveZ (M : list (list Q)) : option (list (nat * nat)) := computeZ (scaled_matrix M).
 
 (* ---------- nesting: grader trees, answer trees, recursive instantiation ---------- *)
 Inductive gtree := TItem (id : nat) | TList (id : nat) (c : lgcfg) (subs : list gtree).
@@ -251,7 +269,7 @@ Section Run.
   (* grader(None, xs)['input_list'] *)
   Definition lg_call (fuel : nat) (g : gtree) (a : atree) (xs : list Z) : option (list entry) :=
     match run fuel g a (GMany xs) None with
-    | Some (Long es) => Some (map fmt_entry es)
+    | Some (GMany es) => Some (map fmt_entry es)
     | _ => None
     end.
 End Run.
